@@ -65,7 +65,8 @@ def gen_pars(cinfo, rng, dim, zero_part=None):
         if p.name.endswith("scale") and p.name not in pars:
             pars[p.name] = 1.0
         if p.name.endswith("_scale") or p.name == "scale":
-            pars[p.name] = rng.choice([1.0, rng.uniform(0.1, 3), 0.0 if rng.random() < 0.1 else 0.7])
+            # per-part scales range over the reals: unit, fractional, zero (switched off) and negative (a subtracted term)
+            pars[p.name] = rng.choice([1.0, rng.uniform(0.1, 3), 0.0 if rng.random() < 0.1 else 0.7, -rng.uniform(0.1, 2)])
         if p.name.endswith("radius_effective_mode") or p.name.endswith("structure_factor_mode"):
             pars[p.name] = float(p.default)
         if "volfraction" in p.name:
